@@ -19,6 +19,9 @@ def main():
         "'\u0958\u0958\u0958' #", "'\u09dc' + \x01", "'e\u0301' ?? 1",
         "'\ufb2a\ufb2a' \x7f", "'a\r\nb' #", "'\u212b' + + )",
         "'\U0001d15e\U0001d15e' #", "1 +\r\n #"]
+    # lone surrogates are code points of a Python str like any other
+    texts += ["'\\u\ud800abc'", "'\\x\ud800a'", "'\\N{\ud800}'",
+              "'a\ud800b'", '"\\x\udfffa"', '\ud800', "`\udc00`"]
     # deeply nested (but valid) inputs: parsing is iterative, no input may
     # exhaust the interpreter stack
     texts += ['1' + ' + 1' * 400, '-' * 400 + '1', '(' * 300 + '1' + ')' * 300,
